@@ -111,7 +111,9 @@ __CPROVER_requires(WV_RC_PTRS(this) && __CPROVER_is_fresh(this->out, sizeof(wv_F
 __CPROVER_requires(wv_slen < (1ull << 31) && __CPROVER_is_fresh(r_buf, wv_slen + 1) && r_buf[wv_slen] == 0 && wv_g < 64 && wv_gr < 20 && wv_hl_n < (1ull << 50) && wv_wcount < (1ull << 60))
 __CPROVER_assigns(WV_FILE_WSTATE(this->out), wv_hl, wv_hl_out)
 __CPROVER_ensures(__CPROVER_is_fresh(__CPROVER_return_value, 320) && wv_hl_out == __CPROVER_return_value + 20 * (this->threads_num - 1))
+__CPROVER_ensures(wv_hl_n >= __CPROVER_old(wv_hl_n) && wv_hl_n <= __CPROVER_old(wv_hl_n) + (wv_slen >> 6) + 18)
 __CPROVER_ensures(this->out->pos == __CPROVER_old(this->out->pos) + 48 + 20ull * this->threads_num && this->out->nwrites == __CPROVER_old(this->out->nwrites) + 4 + this->threads_num)
+__CPROVER_ensures(this->out->nbytes == __CPROVER_old(this->out->nbytes) + 48 + 20ull * this->threads_num && this->out->open && this->out->len == (this->out->pos > __CPROVER_old(this->out->len) ? this->out->pos : __CPROVER_old(this->out->len)))
 __CPROVER_ensures((wv_wP >= __CPROVER_old(this->out->pos) && wv_wP < __CPROVER_old(this->out->pos) + 48 + 20ull * this->threads_num) ?
                   (wv_wcount == __CPROVER_old(wv_wcount) + 1 && wv_wbyte == WV_HDR_BYTE(&this->header, __CPROVER_return_value, wv_wP - __CPROVER_old(this->out->pos))) :
                   (wv_wcount == __CPROVER_old(wv_wcount) && wv_wbyte == __CPROVER_old(wv_wbyte)));
@@ -160,5 +162,36 @@ __CPROVER_ensures(__CPROVER_return_value ==> (this->fin->len >= 48 + 20ull * thi
                   this->out->nbytes - __CPROVER_old(this->out->nbytes) <= this->fin->len - (48 + 20ull * this->threads_num) :
                   this->out->nbytes == __CPROVER_old(this->out->nbytes)))
 /* nothing survives the operation */
+__CPROVER_ensures(WV_FRESH_STATE);
+
+/* ---------------- encryption: header, body, tag -- in this order (C02, C08, C13, C12, C15) */
+#define WV_ENC_N_OLD (__CPROVER_old(this->fin->len) - __CPROVER_old(this->fin->pos))
+#define WV_ENC_BODY_OLD (16ull * (WV_ENC_N_OLD / 16 + 1))
+#define WV_ENC_HDR (48 + 20ull * this->threads_num)
+bool runcrypt__execute_encrypt(runcrypt *this, size_t fsize, u8_t *r_buf)
+__CPROVER_requires(WV_RC_PTRS(this) && __CPROVER_is_fresh(this->out, sizeof(wv_FILE)) && WV_RC_CONS(this) && WV_FRESH_STATE && !buffergroup__mtx.held)
+__CPROVER_requires(WV_FILE_OK(this->fin) && this->fin->len < (1ull << 50) && this->out->open && this->out->pos == 0 && this->out->len == 0 && this->out->nwrites == 0 && this->out->nbytes == 0)
+__CPROVER_requires((u8_t)this->settings.ctype <= 4 && (u8_t)this->settings.htype <= 2 && this->header.ctype == (u8_t)this->settings.ctype && this->header.htype == (u8_t)this->settings.htype)
+__CPROVER_requires(wv_slen < (1ull << 31) && __CPROVER_is_fresh(r_buf, wv_slen + 1) && r_buf[wv_slen] == 0)
+__CPROVER_requires(wv_g < 64 && wv_gr < 16 && wv_hl_n < (1ull << 40) && wv_wcount == 0 && wv_gs < this->threads_num)
+__CPROVER_assigns(this->fin->pos, this->fin->eof, this->fin->open, WV_FILE_WSTATE(this->out), this->aesfactory.iv, WV_ARR(this->crym.threads),
+                  this->hmachandle.length, this->hmachandle.hmac_res, this->hmachandle.buf, WV_HMAC_GHOSTS, wv_tagv,
+                  buffergroup__instance, buffergroup__mtx, bufferctrl__live_num)
+__CPROVER_ensures(__CPROVER_return_value)
+/* [C02] length 48 + 20T + 16(floor(n/16)+1); [C12] the input is only read */
+__CPROVER_ensures(this->out->len == WV_ENC_HDR + WV_ENC_BODY_OLD && this->fin->len == __CPROVER_old(this->fin->len))
+/* [C08] the tag covers [48, EOF) of the finished body and is written with one write of hlen bytes at offset 10 ... */
+__CPROVER_ensures(wv_flen0 == this->out->len - 48 && this->out->last_woff == 10 && this->out->last_wlen == WV_HLEN_OF_TYPE((u8_t)this->settings.htype))
+/* ... [C13] which is the last write of the run: header (4 + T writes), body, then the tag */
+__CPROVER_ensures(this->out->nbytes == WV_ENC_HDR + WV_ENC_BODY_OLD + WV_HLEN_OF_TYPE((u8_t)this->settings.htype))
+/* [C02, C08, C13] observed output offset: the tag bytes are written twice (zero in the header write, then the tag), every other byte once;
+   the bytes between the tag and offset 48 stay zero */
+__CPROVER_ensures(wv_wP < this->out->len ==> wv_wcount == ((wv_wP >= 10 && wv_wP < 10 + (wv_u64)WV_HLEN_OF_TYPE((u8_t)this->settings.htype)) ? 2 : 1))
+__CPROVER_ensures((wv_wP >= 10 && wv_wP < 10 + (wv_u64)WV_HLEN_OF_TYPE((u8_t)this->settings.htype)) ==> wv_wbyte == wv_tag[wv_wP - 10])
+__CPROVER_ensures(wv_wP < 8 ==> wv_wbyte == ((wv_wP & 1) ? 0xA5 : 0xC3))
+__CPROVER_ensures(wv_wP == 8 ==> wv_wbyte == (u8_t)this->settings.ctype)
+__CPROVER_ensures(wv_wP == 9 ==> wv_wbyte == (u8_t)this->settings.htype)
+__CPROVER_ensures((wv_wP >= 10 + (wv_u64)WV_HLEN_OF_TYPE((u8_t)this->settings.htype) && wv_wP < 48) ==> wv_wbyte == 0)
+/* [C15] nothing survives the operation */
 __CPROVER_ensures(WV_FRESH_STATE);
 #endif
